@@ -1,7 +1,404 @@
-//! C27 — not built yet.
-use lv_common::Ctx;
+//! C27 — Verified header range requests terminate and never panic.
+//!
+//! `P2p::get_verified_headers_range(from, amount)` runs on a mocked `P2p` (hook
+//! `lumina_node::verif::header_session::VerifP2p`, an additive copy of the test-only `P2p::mocked()`)
+//! whose command channel is served by a simulated header-ex client that answers like the real
+//! `HeaderExClientHandler`: a request that is not `is_valid()` gets `InvalidRequest`; any other request
+//! gets the available prefix of the requested heights (optionally shortened by a per-request server
+//! cap, never empty) or `HeaderNotFound` when the first requested height is not available.
+//! Runtime: `current_thread`, `start_paused(true)`; every answer has a virtual latency.
+use std::sync::Arc;
+use std::time::Duration;
 
-pub fn run(_ctx: &mut Ctx) {
-    eprintln!("C27: check not built yet");
-    std::process::exit(2);
+use celestia_proto::p2p::pb::HeaderRequest;
+use celestia_proto::p2p::pb::header_request::Data;
+use celestia_types::ExtendedHeader;
+use celestia_types::hash::Hash;
+use lumina_node::node::{HeaderExError, P2pError};
+use lumina_node::verif::header_session::{VerifP2p, next_header_request};
+use lv_common::prelude::*;
+use lv_gen::longchain::cached_chain;
+
+const CHAIN_SEED: u64 = 0xC27;
+const MAX_FROM_IDX: usize = 40;
+const MAX_SMALL: u64 = 600;
+const CHAIN_LEN: usize = MAX_FROM_IDX + MAX_SMALL as usize + 2;
+const BASES: [u64; 4] = [1, 1000, (1 << 32) + 5, i64::MAX as u64 - 1000];
+
+/// budget of the property's "promptly": simulated requests / virtual seconds
+const MAX_REQUESTS: u64 = 1000;
+const MAX_VIRTUAL_SECS: u64 = 60;
+
+#[derive(Clone, Debug, Serialize, Deserialize, PartialEq)]
+pub enum Amount {
+    Zero,
+    Small(u16),
+    Max,
+    MaxM1,
+    /// u64::MAX - h + d - 1 for d in 0..=2 (h = height of `from`): d = 0 is the largest amount whose
+    /// range still fits in u64 (`h + 1 ..= u64::MAX - 1`), d = 1 ends at u64::MAX, d = 2 does not fit
+    NearMaxMinusH(u8),
+    Pow63,
+    Pow32,
+    /// just above the small domain, never served completely
+    Medium(u16),
+}
+
+#[derive(Clone, Debug, Serialize, Deserialize, PartialEq)]
+pub enum FromKind {
+    Valid,
+    /// data_hash does not match the DAH
+    BadDataHash,
+    /// all commit signatures dropped
+    NoSignatures,
+    /// validator set hash mismatch
+    BadValidatorsHash,
+}
+
+#[derive(Clone, Debug, Serialize, Deserialize, PartialEq)]
+pub enum Net {
+    /// the network holds the whole chain
+    All,
+    /// the network holds only this many headers after `from`
+    After(u16),
+}
+
+#[derive(Clone, Debug, Serialize, Deserialize)]
+pub struct Case {
+    pub base: u8,
+    pub from_idx: u8,
+    pub from: FromKind,
+    pub amount: Amount,
+    pub net: Net,
+    /// per-request server caps (cycled); 0 = no cap
+    pub caps: Vec<u8>,
+    /// per-request latency in virtual milliseconds (cycled, +1)
+    pub lat_ms: Vec<u8>,
+}
+
+fn case_strategy() -> impl Strategy<Value = Case> {
+    let amount = prop_oneof![
+        4 => Just(Amount::Zero),
+        8 => (1u16..=MAX_SMALL as u16).prop_map(Amount::Small),
+        2 => prop_oneof![Just(1u16), Just(8), Just(9), Just(64), Just(65), Just(512), Just(513), Just(600)].prop_map(Amount::Small),
+        1 => Just(Amount::Max),
+        1 => Just(Amount::MaxM1),
+        3 => (0u8..=2).prop_map(Amount::NearMaxMinusH),
+        1 => Just(Amount::Pow63),
+        1 => Just(Amount::Pow32),
+        1 => (601u16..5000).prop_map(Amount::Medium),
+    ];
+    let from = prop_oneof![
+        12 => Just(FromKind::Valid),
+        1 => Just(FromKind::BadDataHash),
+        1 => Just(FromKind::NoSignatures),
+        1 => Just(FromKind::BadValidatorsHash),
+    ];
+    let net = prop_oneof![5 => Just(Net::All), 2 => (0u16..=MAX_SMALL as u16).prop_map(Net::After)];
+    (
+        0u8..BASES.len() as u8,
+        0u8..=MAX_FROM_IDX as u8,
+        from,
+        amount,
+        net,
+        prop_oneof![2 => Just(vec![]), 3 => prop::collection::vec(prop_oneof![2 => Just(0u8), 3 => 1u8..=64], 1..6)],
+        prop::collection::vec(0u8..40, 0..6),
+    )
+        .prop_map(|(base, from_idx, from, amount, net, caps, lat_ms)| Case {
+            base,
+            from_idx,
+            from,
+            amount,
+            net,
+            caps,
+            lat_ms,
+        })
+}
+
+fn chain_for(base: u8) -> (u64, Arc<Vec<ExtendedHeader>>) {
+    let b = BASES[(base as usize).min(BASES.len() - 1)];
+    (b, cached_chain(CHAIN_SEED, b, CHAIN_LEN))
+}
+
+/// The request validity rule of the real client (`HeaderRequestExt::is_valid`), restated.
+fn sim_request_is_valid(req: &HeaderRequest) -> bool {
+    if usize::try_from(req.amount).is_err() || req.amount == 0 {
+        return false;
+    }
+    match &req.data {
+        None => false,
+        Some(Data::Origin(0)) => req.amount == 1,
+        Some(Data::Origin(_)) => true,
+        Some(Data::Hash(h)) => h.len() == 32 && req.amount == 1,
+    }
+}
+
+/// What the simulated network answers: headers of `chain` with height <= `net_head`.
+fn sim_answer(req: &HeaderRequest, chain: &[ExtendedHeader], net_head: u64, cap: u64) -> Result<Vec<ExtendedHeader>, P2pError> {
+    if !sim_request_is_valid(req) {
+        return Err(P2pError::HeaderEx(HeaderExError::InvalidRequest));
+    }
+    let first = chain[0].height();
+    let not_found = || Err(P2pError::HeaderEx(HeaderExError::HeaderNotFound));
+    match &req.data {
+        Some(Data::Origin(0)) => {
+            if net_head < first {
+                return not_found();
+            }
+            Ok(vec![chain[(net_head - first) as usize].clone()])
+        }
+        Some(Data::Origin(h)) => {
+            let h = *h;
+            if h < first || h > net_head {
+                return not_found();
+            }
+            let avail = net_head - h + 1;
+            let mut n = req.amount.min(avail);
+            if cap > 0 {
+                n = n.min(cap);
+            }
+            let a = (h - first) as usize;
+            Ok(chain[a..a + n as usize].to_vec())
+        }
+        Some(Data::Hash(bytes)) => match chain.iter().find(|c| c.height() <= net_head && c.hash().as_bytes() == &bytes[..]) {
+            Some(c) => Ok(vec![c.clone()]),
+            None => not_found(),
+        },
+        None => unreachable!("checked by sim_request_is_valid"),
+    }
+}
+
+/// make panic signatures independent of where the repo copy lives
+fn strip_repo_prefix(rec: &str) -> &str {
+    match rec.find("/repo/") {
+        Some(i) => &rec[i + "/repo/".len()..],
+        None => rec,
+    }
+}
+
+enum Outcome {
+    Done(Result<Vec<ExtendedHeader>, P2pError>),
+    /// more than MAX_REQUESTS requests were served and the future is still pending
+    RequestBudget,
+    /// MAX_VIRTUAL_SECS of virtual time passed and the future is still pending
+    TimeBudget,
+    /// command channel closed (cannot happen: the handle keeps a sender)
+    Closed,
+}
+
+fn run_case(case: &Case, obs: &mut Obs) -> Result<(), Failure> {
+    let (base, chain) = chain_for(case.base);
+    let from_idx = (case.from_idx as usize).min(MAX_FROM_IDX);
+    let mut from = chain[from_idx].clone();
+    let h = from.height();
+    match case.from {
+        FromKind::Valid => {}
+        FromKind::BadDataHash => from.header.data_hash = Some(Hash::Sha256([9; 32])),
+        FromKind::NoSignatures => from.commit.signatures.clear(),
+        FromKind::BadValidatorsHash => from.header.validators_hash = Hash::Sha256([7; 32]),
+    }
+    let from_valid = from.validate().is_ok();
+    if case.from != FromKind::Valid && from_valid {
+        // generator did not manage to invalidate: treat as the valid case it is
+        obs.label("from-mutation-still-valid");
+    }
+
+    let amount: u64 = match case.amount {
+        Amount::Zero => 0,
+        Amount::Small(a) => (a as u64).clamp(1, MAX_SMALL),
+        Amount::Max => u64::MAX,
+        Amount::MaxM1 => u64::MAX - 1,
+        Amount::NearMaxMinusH(d) => u64::MAX - h - 1 + (d.min(2) as u64),
+        Amount::Pow63 => 1 << 63,
+        Amount::Pow32 => 1 << 32,
+        Amount::Medium(a) => (a as u64).max(MAX_SMALL + 1),
+    };
+    // does `h + 1 ..= h + amount` fit in u64? (mathematically, independent of evaluation order)
+    let range_fits = amount == 0 || (h as u128 + amount as u128) <= u64::MAX as u128;
+
+    let chain_top = base + chain.len() as u64 - 1;
+    let net_head = match case.net {
+        Net::All => chain_top,
+        Net::After(k) => (h + k as u64).min(chain_top),
+    };
+    let served_completely = amount >= 1 && amount <= MAX_SMALL && h + amount <= net_head;
+
+    let caps = case.caps.clone();
+    let lats = case.lat_ms.clone();
+    let chain2 = chain.clone();
+    let from2 = from.clone();
+
+    let res = lv_common::no_panic(move || {
+        let rt = tokio::runtime::Builder::new_current_thread()
+            .enable_time()
+            .start_paused(true)
+            .build()
+            .expect("runtime");
+        rt.block_on(async move {
+            let (p2p, mut handle) = VerifP2p::mocked();
+            let fut = p2p.get_verified_headers_range(&from2, amount);
+            tokio::pin!(fut);
+            let deadline = tokio::time::Instant::now() + Duration::from_secs(MAX_VIRTUAL_SECS);
+            let mut served = 0u64;
+            loop {
+                tokio::select! {
+                    biased;
+                    r = &mut fut => return (Outcome::Done(r), served),
+                    req = next_header_request(&mut handle) => {
+                        let Some(req) = req else { return (Outcome::Closed, served) };
+                        if served >= MAX_REQUESTS {
+                            return (Outcome::RequestBudget, served);
+                        }
+                        let cap = if caps.is_empty() { 0 } else { caps[served as usize % caps.len()] as u64 };
+                        let lat = if lats.is_empty() { 0 } else { lats[served as usize % lats.len()] as u64 } + 1;
+                        served += 1;
+                        let answer = sim_answer(&req.request, &chain2, net_head, cap);
+                        tokio::spawn(async move {
+                            tokio::time::sleep(Duration::from_millis(lat)).await;
+                            let _ = req.respond_to.send(answer);
+                        });
+                    }
+                    _ = tokio::time::sleep_until(deadline) => return (Outcome::TimeBudget, served),
+                }
+            }
+        })
+    });
+
+    // ---- classification
+    let class = if !from_valid {
+        "from-invalid"
+    } else if amount == 0 {
+        "amount-zero"
+    } else if served_completely {
+        "amount-small-served"
+    } else if amount <= MAX_SMALL {
+        "amount-small-partial-net"
+    } else if !range_fits {
+        "amount-huge-range-exceeds-u64"
+    } else {
+        "amount-huge-range-fits"
+    };
+    obs.label(class);
+    if !case.caps.is_empty() && case.caps.iter().any(|c| *c > 0) {
+        obs.label("capped-responses");
+    }
+    obs.eval(from_valid.then(|| digest_of(case)));
+
+    let (outcome, served) = match res {
+        Ok(x) => x,
+        Err(rec) => {
+            let sig = if rec.contains("overflow") {
+                "C27:panic-arithmetic-overflow".to_string()
+            } else {
+                format!("C27:{}", lv_common::panic_sig(strip_repo_prefix(&rec)))
+            };
+            obs.fail(
+                &sig,
+                format!("get_verified_headers_range(from height {h}, amount {amount}) panicked: {rec} [{class}]"),
+            )?;
+            obs.label("panicked");
+            return Ok(());
+        }
+    };
+    match &outcome {
+        Outcome::Done(Ok(_)) => obs.label("returned-ok"),
+        Outcome::Done(Err(_)) => obs.label("returned-err"),
+        Outcome::RequestBudget => obs.label("request-budget-exhausted"),
+        Outcome::TimeBudget => obs.label("time-budget-exhausted"),
+        Outcome::Closed => obs.label("channel-closed"),
+    }
+
+    if !from_valid {
+        // only "never panics" is claimed; the code is expected to refuse, record what it did
+        if let Outcome::Done(Err(_)) = outcome {
+            obs.label("from-invalid-refused");
+        }
+        return Ok(());
+    }
+
+    if amount == 0 {
+        match outcome {
+            Outcome::Done(Ok(v)) => {
+                obs.check(v.is_empty(), "C27:amount-zero-returned-headers", || {
+                    format!("amount 0 after height {h}: returned {} headers", v.len())
+                })?;
+                obs.label("zero-returned-empty");
+            }
+            Outcome::Done(Err(_)) => obs.label("zero-returned-error"),
+            _ => {
+                obs.fail(
+                    "C27:amount-zero-does-not-return",
+                    format!(
+                        "get_verified_headers_range(from height {h}, amount 0) still pending after {served} simulated requests / {MAX_VIRTUAL_SECS} virtual seconds (every request the session sent was answered like the real client would)"
+                    ),
+                )?;
+            }
+        }
+        return Ok(());
+    }
+
+    if served_completely {
+        let expected = &chain[from_idx + 1..from_idx + 1 + amount as usize];
+        match outcome {
+            Outcome::Done(Ok(v)) => {
+                obs.check(v.as_slice() == expected, "C27:served-range-mismatch", || {
+                    format!(
+                        "from height {h} amount {amount}: returned heights {:?}.. ({} headers), expected {}..={}",
+                        v.iter().take(5).map(|x| x.height()).collect::<Vec<_>>(),
+                        v.len(),
+                        h + 1,
+                        h + amount
+                    )
+                })?;
+            }
+            Outcome::Done(Err(e)) => {
+                obs.fail(
+                    "C27:served-range-error",
+                    format!("from height {h} amount {amount}: the network served every requested header but the call returned Err({e})"),
+                )?;
+            }
+            _ => {
+                obs.fail(
+                    "C27:served-range-no-return",
+                    format!("from height {h} amount {amount}: the network served every requested header but the call is still pending after {served} requests"),
+                )?;
+            }
+        }
+    }
+    // everything else: only "no panic within the budget" (checked above)
+    Ok(())
+}
+
+pub fn run(ctx: &mut Ctx) {
+    ctx.assume("the simulated header-ex client restates the real client's contract: !is_valid() => InvalidRequest; else the available prefix (>= 1 header, optionally capped by the server) or HeaderNotFound");
+    ctx.assume("'promptly' for amount 0 = resolves within 1000 simulated requests / 60 virtual seconds (paused tokio clock)");
+    ctx.assume("for amounts the network cannot serve completely (and huge amounts) only the absence of a panic within the same budget is asserted");
+    ctx.assume("harness build has overflow-checks and debug-assertions ON, so arithmetic wrap shows up as a panic");
+    ctx.essential(&[
+        "amount-zero",
+        "amount-small-served",
+        "amount-small-partial-net",
+        "amount-huge-range-exceeds-u64",
+        "amount-huge-range-fits",
+        "from-invalid",
+        "from-invalid-refused",
+        "returned-ok",
+        "capped-responses",
+    ]);
+    for b in 0..BASES.len() as u8 {
+        if let Err(rec) = lv_common::no_panic(|| chain_for(b)) {
+            ctx.inconclusive(format!("chain generator fault: {rec}"));
+            return;
+        }
+    }
+    let cases = ctx.tier.pick(40000, 400000);
+    ctx.proptest(
+        "verified-range",
+        "one call of get_verified_headers_range per case on a mocked P2p served by a simulated header-ex client; from = chain header \
+         (or an invalidated copy), amount in {0, 1..600, 601..5000, 2^32, 2^63, u64::MAX-h-1..+1, MAX-1, MAX}, network holding all or a \
+         prefix of the chain, per-request caps and latencies; non-trivial = `from` validates; distinct = digest of the recipe",
+        cases,
+        case_strategy,
+        run_case,
+    );
 }
